@@ -103,6 +103,21 @@ def task_levels(ctx, lname, boundaries, R=1.3):
         return sc.centered_vertical_advection(w, x, coords, axis=axis), -0.5 * (lo + hi)
       prove_close(ctx, 'advection.centered_definition', adv_ref, [w, xx], sp3, config=c, scale_floor=1.0)
 
+      # optional boundary values (top, bottom) for w and for dx/dsigma enter exactly as documented: the padded products are averaged
+      wt = PolyArr.variables(sp3, 'wt', col_shape); wb = PolyArr.variables(sp3, 'wb', col_shape)
+      gt = PolyArr.variables(sp3, 'gt', col_shape); gb = PolyArr.variables(sp3, 'gb', col_shape)
+
+      def adv_bnd(w, x, wt, wb, gt, gb):
+        dx = jnu.diff(x, axis=ax) / d_cc
+        wd = jnp.concatenate([wt * gt, w * dx, wb * gb], axis=ax)
+        lo = jax.lax.slice_in_dim(wd, 0, K, axis=ax); hi = jax.lax.slice_in_dim(wd, 1, K + 1, axis=ax)
+        wd_w = jnp.concatenate([wt * 0.0, w * dx, wb * 0.0], axis=ax)            # only w boundary values given: dx/dsigma boundary stays 0
+        lo_w = jax.lax.slice_in_dim(wd_w, 0, K, axis=ax); hi_w = jax.lax.slice_in_dim(wd_w, 1, K + 1, axis=ax)
+        return ((sc.centered_vertical_advection(w, x, coords, axis=axis, w_boundary_values=(wt, wb), dx_dsigma_boundary_values=(gt, gb)),
+                 sc.centered_vertical_advection(w, x, coords, axis=axis, w_boundary_values=(wt, wb))),
+                (-0.5 * (lo + hi), -0.5 * (lo_w + hi_w)))
+      prove_close(ctx, 'advection.boundary_values_enter_as_documented', adv_bnd, [w, xx, wt, wb, gt, gb], sp3, config=c, scale_floor=1.0)
+
       # upwind advection = one-sided differences, by sign pattern of w
       for pattern in ('nonneg', 'nonpos', 'mixed'):
         sp4 = Space(bits=11)
